@@ -224,16 +224,16 @@ def jobs_for(prop, tier, seed):
         for _ in range(n):
             add(with_term(rng, lambda r, s, sh: collect_term(r, s, sh)))
     elif prop == "C02":
-        matrix(rng, tier, [find_term], add, reps=2)
+        matrix(rng, tier, [find_term], add, reps=3)
         for _ in range(n):
             add(with_term(rng, find_term, sizes=(0, 1, 2, 5, 8, 13, 24, 40, 64)))
     elif prop == "C03":
-        matrix(rng, tier, [reduce_term, lambda r, s_, sh: {"k": "reduce", "op": r.choice(["add", "xor", "min", "max"])}], add)
+        matrix(rng, tier, [reduce_term, lambda r, s_, sh: {"k": "reduce", "op": r.choice(["add", "xor", "min", "max"])}], add, reps=2)
         big_jobs(rng, tier, [lambda r, s_, sh: {"k": "reduce", "op": "add"}], add)
         for _ in range(n):
             add(with_term(rng, reduce_term))
     elif prop == "C04":
-        matrix(rng, tier, [lambda r, s_, sh: {"k": "count"}, lambda r, s_, sh: {"k": "for_each"}], add)
+        matrix(rng, tier, [lambda r, s_, sh: {"k": "count"}, lambda r, s_, sh: {"k": "for_each"}], add, reps=2)
         big_jobs(rng, tier, [lambda r, s_, sh: {"k": "count"}], add)
         for _ in range(n):
             add(with_term(rng, lambda r, s, sh: {"k": r.choice(["count", "for_each"])}))
@@ -311,6 +311,12 @@ def jobs_for(prop, tier, seed):
                               cs=rng.choice([None, ("cs", 1), ("cs", 2), ("cs", 5), ("cs", 16), ("csmin", 3)]))
                 add(p)
     elif prop == "C11":
+        matrix(rng, tier, [lambda r, s_, sh: any_term(r, s_, sh)], add, nts=(3, 5, 6, 8))
+        for i in range(40 if tier == "quick" else 400):
+            # enough threads to cross a lag period, enough input for the early workers to make progress
+            p = with_term(rng, lambda r, s_, sh: any_term(r, s_, sh), cs=("cs", rng.choice([1, 2, 3, 4])), nt=rng.choice([6, 7, 8, 12]),
+                          sources=("vec", "iter", "slice", "range"), sizes=(40, 64), maxlen=2)
+            add(p, "rand")
         for _ in range(n):
             c = rng.choice([1, 2, 2, 3, 3, 4, 5, 7, 16, 64])
             p = with_term(rng, lambda r, s, sh: any_term(r, s, sh), cs=("cs", c),
